@@ -30,6 +30,28 @@ META = {
     "C17-scope-id-from-flowinfo": ("C17", "to_native stores flowinfo into sin6_scope_id; needs an IPv6 address whose scope id differs from its flow info"),
     "C18-platform-key-leak-on-oom": ("C18", "hash object freed only after the NULL test of its string; needs the 3rd allocation inside p_ipc_get_platform_key to fail"),
     "C19-poll-eintr-timed-wait": ("C19", "EINTR from poll turned into a time-out when the socket has a timeout; needs a handled signal during a timed blocking call"),
+    # ---- round 2 (a different function / mechanism / clause than the round-1 seed of the same property) ----
+    "C01-c11-trylock-relaxed": ("C01", "C11 spinlock model: trylock's compare-exchange success order relaxed; needs a weakly ordered CPU or compiler reordering across the acquire"),
+    "C02-writer-unlock-signals-one-reader": ("C02", "general rwlock model: writer unlock signals one reader instead of broadcasting; needs >= 2 readers blocked behind a writer"),
+    "C03-signal-skipped-by-racy-waiter-count": ("C03", "signal/broadcast skipped when an unsynchronised waiter counter reads 0; needs signals issued outside the mutex racing with waiters"),
+    "C04-c11-set-release-order": ("C04", "C11 atomic model: set uses release instead of seq_cst; needs store-load reordering (Dekker pattern)"),
+    "C05-handle-not-zeroed": ("C05", "thread handle allocated with p_malloc instead of p_malloc0: ret_code is never initialised; needs dirty allocator memory and a thread that returns without p_uthread_exit"),
+    "C06-create-fallback-no-unlink": ("C06", "CREATE on an existing name no longer unlinks before re-creating; needs a stale semaphore with another value"),
+    "C07-lock-semaphore-always-open": ("C07", "the creator obtains the lock semaphore in OPEN mode too: a stale semaphore left locked by a killed process is never reset; needs such a leftover"),
+    "C08-inline-free-space-off-by-one": ("C08", "write computes the free space inline and drops the - 1 in the wrapped case; needs a wrapped ring filled exactly"),
+    "C09-sigpipe-ignore-compiled-out": ("C09", "signal (SIGPIPE, SIG_IGN) compiled out where MSG_NOSIGNAL exists although send() does not pass it; needs a send to a peer that has closed"),
+    "C10-set-blocking-bitfield-truncation": ("C10", "set_blocking stores the raw pboolean into a 1-bit field; needs a truthy value with bit 0 clear"),
+    "C11-gost-sum-carry-dropped": ("C11", "GOST control sum carry-out ignores the equal case; needs a 0xFFFFFFFF message word with carry-in"),
+    "C12-avl-remove-value-guard-copied": ("C12", "AVL remove guards the value notifier with the key notifier; needs a tree with exactly one notifier"),
+    "C13-rb-remove-fixup-stops-below-root": ("C13", "RB removal fix-up also stops at a child of the root; needs a black-leaf removal directly below the root"),
+    "C13-avl-replace-runs-insert-retrace": ("C13", "AVL insert's replace branch merged into a common tail that still runs the insert retrace; needs a replacement of a stored key on a non-root node"),
+    "C14-replace-same-value-early-return": ("C14", "replace returns early when the value pointer is unchanged; needs equal keys as distinct objects and an identical value pointer"),
+    "C15-hash-signed-modulo": ("C15", "bucket index computed with a signed modulo; needs a key whose integer value is negative"),
+    "C16-section-header-sscanf-only": ("C16", "section header recognised by sscanf alone; needs a non-header line starting with '['"),
+    "C17-loopback-mask-16": ("C17", "IPv4 loopback mask narrowed to /16; needs 127.x.y.z with x != 0"),
+    "C18-hash-closed-flag-after-alloc": ("C18", "hash marked closed only after the string allocation; needs that allocation to fail and a later query"),
+    "C19-sem-wait-eintr-wrong-getter": ("C19", "sem_wait retry compares the mapped IPC error with EINTR; needs a handled signal while blocked"),
+    "C20-ini-param-allocated-without-section": ("C20", "parameter allocated even when no section is open; needs key=value lines before the first section"),
     "C20-shm-name-left-on-failed-create": ("C20", "shm_created set only after mmap succeeded; needs ftruncate/mmap to fail after the exclusive create (size 0 or huge)"),
 }
 
@@ -41,7 +63,10 @@ def sh(cmd, **kw):
 def main():
     props = ["C%02d" % i for i in range(1, 21)]
     rows = []
+    only = sys.argv[1:]
     for name in sorted(os.listdir(SEEDS)):
+        if only and name not in only:
+            continue
         d = os.path.join(SEEDS, name)
         patch = os.path.join(d, "patch.diff")
         if not os.path.exists(patch):
@@ -53,8 +78,12 @@ def main():
             continue
         hits = {}
         try:
-            for p in props:
-                o = sh("cd %s && PLINT_NO_EVIDENCE=1 ./check %s" % (VERIF, p))
+            # extract the changed units once, then run the twenty checks side by side on the cached facts
+            sh("cd %s/engine && python3 -c 'from plint import units; units.load_units()'" % VERIF)
+            from concurrent.futures import ThreadPoolExecutor
+            with ThreadPoolExecutor(max_workers=10) as ex:
+                outs = list(ex.map(lambda p: sh("cd %s && PLINT_NO_EVIDENCE=1 ./check %s" % (VERIF, p)), props))
+            for p, o in zip(props, outs):
                 rules = sorted(set(re.findall(r"rule (C\d\d\.\d+)", o.stdout)))
                 if o.returncode == 1 and rules:
                     hits[p] = rules
